@@ -193,7 +193,7 @@ Definition flt_slice_bounds (count start : Z) (len : option Z) : option (Z * Z) 
       end in
     Some (start, e).
 
-(* xs[start:end] *)
+(* the items of xs[start:end], in a slice of their own *)
 Definition flt_sub {A} (l : list A) (b : option (Z * Z)) : list A :=
   match b with
   | None => []
